@@ -100,9 +100,13 @@ def execute(world, op, adopt=True, pre_hook=None):
             setattr(recv, op["attr"], v)
             return Outcome("value", receiver=recv, args=list(world.args))
         if kind == "del":
+            if pre_hook:
+                pre_hook(world)
             delattr(recv, op["attr"])
             return Outcome("value", receiver=recv)
         if kind == "deepcopy":
+            if pre_hook:
+                pre_hook(world)
             r = copy.deepcopy(recv)
             if adopt:
                 world.objs[t] = r
@@ -196,6 +200,9 @@ def scalar_ops(n, K, a, obj, P):
                 ops.append(_call(f"with_{n}", "with:kw_unknown", nope=1, **f))
                 ops.append(_call(f"transform_{n}", "transform:attrfn_bad", x=FN("bad"), **f))
         ops.append(_call(f"update_{n}", "update:conf", conf[-1], **f))
+        if K.get("nested"):
+            ops.append(_call(f"update_{n}", "update:noargs", **f))
+            ops.append(_call(f"transform_{n}", "transform:noargs", **f))
         if bad:
             ops.append(_call(f"update_{n}", "update:bad", bad[0], **f))
         fns = ["inc", "same"] + (["bad", "missing"] if P.get("invalid", True) else []) + (["raise"] if P.get("raising", False) else [])
